@@ -130,7 +130,7 @@ func apacheV(t *rapid.T, l string) string {
 	case 0, 1, 2, 3:
 		return s
 	case 4, 5, 6, 7:
-		q := MixCase(t, l+"c", Pick(t, l+"w", "alpha", "beta", "M", "milestone", "RC", "rc", "SNAPSHOT", "dev", "foo", "bar"))
+		q := MixCase(t, l+"c", Pick(t, l+"w", "alpha", "beta", "M", "milestone", "RC", "rc", "SNAPSHOT", "dev", "foo", "bar", "final", "GA", "release"))
 		if Chance(t, l+"hasn", 1, 2) {
 			q += SmallNum(t, l+"qn")
 		}
@@ -223,8 +223,9 @@ func hexV(t *rapid.T, l string) string {
 }
 
 // pseudo-version timestamps (valid calendar instants) and revisions.
-var pseudoTS = []string{"20230101000000", "20230101000001", "20221231235959", "20240229120000", "20190101000000"}
-var pseudoRev = []string{"abcdefabcdef", "0123456789ab", "ffffffffffff"}
+// (the last entries form Go's "no version information" placeholder v0.0.0-00010101000000-000000000000)
+var pseudoTS = []string{"20230101000000", "20230101000001", "20221231235959", "20240229120000", "20190101000000", "00010101000000", "00010101000000"}
+var pseudoRev = []string{"abcdefabcdef", "0123456789ab", "ffffffffffff", "000000000000", "000000000000", "000000000001"}
 
 // GolangPseudo draws one of the three pseudo-version forms.
 func GolangPseudo(t *rapid.T, l string) string {
